@@ -5,6 +5,8 @@ from vlib.gens import *
 GROUP = "nt"
 LEAN_PROPS = "Dashu.Props.C13"
 LEAN_AUDIT = "Dashu.Audit.C13"
+GEN_PROPS = ["Dashu.Props.C13Link"]     # round 5: C13 <-> C02 link (multi-word div_rem_in_place), word-level invm
+GEN_AUDIT = ["Dashu.Audit.C13Link"]
 W = 64
 
 def modulus(rng, tier):
@@ -293,6 +295,102 @@ def conjunct_cases(rng, tier):
         yield Case("r.neg", [hx(m), hx(z % m)])
         yield Case("m.sub", [hx(m), hx(0), hx(z % m)])
 
+def invm_prim_cases(rng, tier):
+    """round 5 — num-modular's `invm` on Word / DoubleWord (single- and double-word rings), built from the branch
+    conditions of `u128::mulm` (checked_mul vs udouble::widening_mul), `udouble::div_rem_2by1` (normalising shift
+    0 / 1..63 / 64..127 — the latter needs m < 2^64, i.e. never for DoubleWord; first / second quotient digit: estimate
+    >= B, 0 / 1 / 2 correction steps, `rhat >= B` break) and `subm` (a >= b / a < b, difference a multiple of m):
+    moduli of EVERY bit length 2..128 (random, all-ones 2^k-1, 2^(k-1)+1, low half all-ones with minimal top half
+    d1 = 2^63 after normalisation, low half zero, 2^k - small), x operands whose cofactor sequence makes quo*t large:
+    m-1, m-2, m-3, (m+-1)/2, (m+-1)/3, 2, 3, floor(m/phi) (all quotients 1: the longest loop), random coprime,
+    a multiple of a factor (non-invertible)."""
+    reps = 1 if tier == "quick" else 12
+    phi_n, phi_d = 1000000000000, 1618033988749
+    for k in list(range(2, 129)):
+        ms = [(1 << k) - 1, (1 << (k - 1)) + 1, rng.getrandbits(k) | (1 << (k - 1)) | 1]
+        if k > 64:
+            h = k - 64      # bits of the top word
+            ms += [(1 << (k - 1)) | ((1 << 64) - 1),                 # d1 minimal, d0 all ones
+                   ((rng.getrandbits(h) | (1 << (h - 1))) << 64),     # d0 = 0
+                   ((rng.getrandbits(h) | (1 << (h - 1))) << 64) | ((1 << 64) - rng.choice([1, 2, 3])),
+                   (1 << k) - rng.choice([3, 5, 59, 159, 173])]
+        else:
+            ms += [(1 << k) - rng.choice([1, 3, 5]) if k > 3 else 3]
+        for _ in range(reps):
+            for m in ms:
+                if m < 2:
+                    continue
+                xs = [m - 1, m - 2, (m + 1) // 2, (m - 1) // 2, (m + 1) // 3, 2, 3, m * phi_n // phi_d,
+                      rng.randrange(1, m), rng.randrange(1, m)]
+                if k > 100 and tier != "quick":
+                    xs += [m - 3, (m - 1) // 3, rng.randrange(1, m) | 1, m - rng.getrandbits(20) - 1]
+                pick = xs if (k > 64 or tier != "quick") else rng.sample(xs, 3)
+                for x in pick:
+                    x %= m
+                    op = rng.choice(["m.inv", "m.inv", "r.inv", "m.div"])
+                    if op == "m.div":
+                        yield Case("m.div", [hx(m), hx(rng.getrandbits(130)), hx(x)])
+                    elif op == "r.inv":
+                        yield Case("r.inv", [hx(m), hx(x)])
+                    else:
+                        yield Case("m.inv", [hx(m), hx(x + m * rng.choice([0, 0, 1, -1, -(1 << 70)]))])
+
+def prim_boundary_cases(rng, tier):
+    """round 5 (addendum E1/E2) — `ConstDivisor::reduce` takes every primitive integer type: the boundary values of
+    each (0, +-1, MAX, MIN, MAX+1, MIN-1, 2^t, 2^t +- 1 for t in 8,16,32,64,128 and the unsigned/signed halves) against
+    one modulus of every ring kind and of word-boundary shape B^e, B^e +- 1 (B = 2^64, 2^32; e = 1..4); operands k*m +- 1,
+    m^2 +- 1 and B^e +- 1 against random moduli of every kind."""
+    bvals = [0, 1, -1]
+    for t in (7, 8, 15, 16, 31, 32, 63, 64, 127, 128):
+        for d in (-1, 0, 1):
+            bvals += [(1 << t) + d, -((1 << t) + d)]
+    shapes = []
+    for w in (64, 32):
+        for e in (1, 2, 3, 4):
+            shapes += [(1 << (w * e)) - 1, 1 << (w * e), (1 << (w * e)) + 1]
+    mods = shapes + [modulus(rng, tier) for _ in range(6 if tier == "quick" else 60)]
+    for m in mods:
+        vals = bvals if (tier != "quick" or m in shapes[:12]) else rng.sample(bvals, 12)
+        for v in vals:
+            yield Case("m.reduce", [hx(m), hx(v)])
+        for v in [m * m - 1, m * m + 1, 3 * m - 1, 3 * m + 1, -(m * m) + 1, -(5 * m) - 1]:
+            yield Case("m.reduce", [hx(m), hx(v)])
+        for e in (1, 2, 3, 5):
+            v = (1 << (64 * e)) + rng.choice([-1, 0, 1])
+            yield Case(rng.choice(["m.reduce", "r.transform"]), [hx(m), hx(v)])
+        a, b = rng.choice(bvals), rng.choice(bvals)
+        yield Case("m." + rng.choice(["add", "sub", "mul"]), [hx(m), hx(a), hx(b)])
+        yield Case("m.pow", [hx(m), hx(a), hx(abs(b))])
+
+def big_kernel_cases(rng, tier):
+    """round 5 — the multiplication / division algorithms behind the multi-word ring (C01's and C02's mirrored kernels now run inside
+    the C13 driver): moduli whose word count sits on either side of every threshold (mul THRESHOLD_SIMPLE 24, sqr MAX_LEN_SIMPLE 30,
+    div THRESHOLD_SIMPLE 32, mul THRESHOLD_KARATSUBA 192) x operands of n, n/2, 1, n-1 words (equal / unequal lengths, chunked
+    schoolbook) through reduce (Knuth D / Burnikel-Ziegler), mul, sqr, and pow with a tiny exponent."""
+    ns = [24, 25, 30, 31, 32, 33, 34, 66] if tier == "quick" else [23, 24, 25, 26, 30, 31, 32, 33, 34, 48, 65, 66, 100, 192, 193, 200]
+    if tier == "quick":
+        ns += [rng.choice([193, 200])]
+    for n in ns:
+        for _ in range(1 if (tier == "quick" or n > 150) else 4):
+            lz = rng.choice([0, 0, 1, 17, 63])
+            m = rng.getrandbits(n * 64 - lz) | (1 << (n * 64 - lz - 1)) | rng.choice([0, 1])
+            full = rng.getrandbits(n * 64 - lz - 1)
+            half = rng.getrandbits((n // 2) * 64) | (1 << ((n // 2) * 64 - 1))
+            one = rng.getrandbits(64) | 1
+            near = rng.getrandbits((n - 1) * 64)
+            yield Case("m.reduce", [hx(m), hx(rng.getrandbits(2 * n * 64 + rng.choice([0, 64, 700])))])     # lhs - rhs > 32 words for n > 32
+            yield Case("m.reduce", [hx(m), hx(-rng.getrandbits((n + rng.choice([1, 2, 30, 33])) * 64))])
+            yield Case("m.mul", [hx(m), hx(full), hx(rng.getrandbits(n * 64 - lz - 1))])
+            yield Case("m.mul", [hx(m), hx(full), hx(half)])
+            yield Case("m.mul", [hx(m), hx(one), hx(full)])
+            yield Case("m.mul", [hx(m), hx(near), hx(half)])
+            yield Case("m.sqr", [hx(m), hx(full)])
+            yield Case("m.sqr", [hx(m), hx(half)])
+            yield Case("r.mul", [hx(m), hx(full), hx(full)])
+            if n <= 66:
+                yield Case("m.pow", [hx(m), hx(full), hx(rng.choice([3, 5, 6]))])
+                yield Case("m.div", [hx(m), hx(half), hx(coprime_to(rng, 64, m))])
+
 def nontrivial(c):
     return c.args and len(c.args[1 if c.op == "m.mix" else 0]) > 16     # modulus above one word
 
@@ -302,6 +400,12 @@ def generate(rng, tier):
     for c in conjunct_cases(rng, tier):
         yield c
     for c in kernel_cases(rng, tier):
+        yield c
+    for c in invm_prim_cases(rng, tier):
+        yield c
+    for c in prim_boundary_cases(rng, tier):
+        yield c
+    for c in big_kernel_cases(rng, tier):
         yield c
     n = 2200 if tier == "quick" else 60000
     for i in range(n):
@@ -371,7 +475,8 @@ def generate(rng, tier):
                     a = m // 2                                   # double exactly m
                 yield Case("r." + op, [hx(m), hx(a)])
 
-USES_GEN = True          # lean/Dashu/Gen/Modular.lean: decision logic of integer/src/modular/{mul,pow,div}.rs (vlib/extract.py gen_modular)
+USES_GEN = True          # lean/Dashu/Gen/Modular.lean: decision logic of integer/src/modular/{mul,pow,div}.rs (vlib/extract.py gen_modular);
+                         # lean/Dashu/Gen/ModularBuf.lean (round 5): buffer-level tests of ConstLargeDivisor::rem_large / mul_normalized / sqr_normalized (gen_modular_buf)
 REFINED = ["ConstDivisor::new (shift)", "ConstSingleDivisor::rem_word/rem_dword/rem_large", "ConstDoubleDivisor::rem_dword/rem_large",
            "ConstLargeDivisor::rem_repr/rem_large", "IntoRing for UBig/IBig", "Reduced::residue/modulus",
            "Neg/Add/Sub/Mul/Div for Reduced", "Reduced::dbl/sqr/inv/pow", "mul_normalized/sqr_normalized",
@@ -390,12 +495,35 @@ REFINED = ["ConstDivisor::new (shift)", "ConstSingleDivisor::rem_word/rem_dword/
            "lehmer_gcd_ext_correct / gcdExtSmall_spec (inv_large_mirror, inv_div_kernels)",
            "round 4, Tie A (Gen/Modular.lean regenerated from integer/src/modular/{mul,pow,div}.rs): the long-division tests of mul_/sqr_normalized, "
            "cost model / loop guard / stop test / start value of choose_pow_window_len, the `match raw_len` dispatch and the gcd-is-one test of inv_large "
-           "— the model is proved equal to the regenerated definitions"]
-FRONTIER = ["multi-word div_rem_in_place (ConstLargeDivisor::rem_large, mul_normalized/sqr_normalized when na + nb > n) is modelled as exact % — "
-            "its exactness is C02's burnikel_ziegler_exact / div_by_word/dword_exact",
-            "mul::multiply / sqr::sqr on word slices: modelled as exact * (refined in C01)",
-            "num-modular's invm for single- and double-word rings is mirrored on Nat (extended Euclid reduced mod m at every step); its u64/u128 "
-            "wrapping arithmetic is not modelled at the word level"]
+           "— the model is proved equal to the regenerated definitions",
+           "round 5, C13<->C02 link (Props/C13Link, by import of C02's divRemInPlace_spec = simple_div_rem_exact + burnikel_ziegler_exact): "
+           "ConstLargeDivisor::rem_large / rem_repr and mul_normalized / sqr_normalized mirrored on WORD BUFFERS (shl_in_place, push_resizing(carry), "
+           "the len test, trimmed lengths, n.max(na+nb)-word product, `na | nb == 0`, debug_assert_zero!(shr_in_place), div_rem_in_place + truncate / "
+           "cmp_same_len + sub) running C02's mirrored Knuth-D / Burnikel-Ziegler div_rem_in_place; executed by the driver for reduce, *, sqr, / of "
+           "multi-word rings; proved never to fail and to equal the %-level definitions (rem_large_exact, reduce_kernels_all, mul_sqr_kernels_all; 4 <= W from C02/C01)",
+           "round 5, num-modular's invm at the machine level (Model/NT/ModInvm.lean, executed for inv and / of single- and double-word rings): checked + - * "
+           "(overflow = error), wrapping_mul/add/sub mod 2^bits, truncating casts; udouble::widening_mul, udouble::shl_u32, udouble::div_rem_2by1 (two "
+           "quotient digits, each with the `while q >= B || q*d0 > B*rhat + n` correction loop and its `rhat >= B` break), Rem<u128> for udouble, "
+           "u128::mulm (checked_mul / widening path), mulm of u8..u64 through the next wider type, subm, negm, the Euclid loop — proved for every half width "
+           "H >= 1 and type width T: no check ever fails, no q underflow, results exact, invm on the primitive type = the Nat-level invm of inv_spec "
+           "(widening_mul_exact, udouble_div_rem_2by1_exact, prim_mulm_exact, invm_prim_exact, inv_div_kernels_all)",
+           "round 5, C13<->C01 link: the product buffer of mul_normalized / sqr_normalized (productLow) is filled by C01's MIRRORED mul::multiply "
+           "(addSignedMul: schoolbook / Karatsuba / Toom-3 with chunk splitting, its debug_assert_zero! carry) resp. sqr::sqr (sqrBuffer), or the one-word "
+           "extend_word shortcut; executed by the driver; exactness and buffer length by import of C01's addSignedMul_contract / sqrBuffer_spec (productLow_spec) — "
+           "no multiplication or division of the top-level ring operations is taken at its contract any more",
+           "round 5: large::pow / pow_nontrivial on buffers (Model/NT/ModPowK.lean: the table construction and the windowed loop over an arbitrary sqr / mul; powLK runs every "
+           "sqr_in_place through the buffer-level sqr_normalized and every table / window product through the buffer-level mul_normalized — not the squaring shortcut, as in the code); "
+           "executed by the driver for pow of multi-word rings; proved equal to the value-level loop on every valid base (pow_kernels_all: powLG_value by induction, powLG_congr over Valid)",
+           "round 5, Tie A (Gen/ModularBuf.lean regenerated from integer/src/div_const.rs and integer/src/modular/mul.rs by the new additive extract target "
+           "gen_modular_buf): the `words.len() >= modulus.len()` test of ConstLargeDivisor::rem_large, the product-buffer length `n.max(na + nb)` / `n.max(na * 2)`, "
+           "the early return `na | nb == 0` / `na == 0` and the one-word shortcut test of mul_/sqr_normalized — the buffer mirrors are proved to CALL the "
+           "regenerated definitions (buffer_logic_gen, rem_large_gen, mul_normalized_gen)"]
+FRONTIER = ["large::pow above the driver's work budget (n^2 * bit_len(exp) > 3e6 word operations) is executed with the value-level mul_normalized instead of the buffer-level one "
+            "(pow_kernels_all proves both equal on every valid base, so this only bounds the running time of the check); inv_large's shr/shl/negate and the add/sub/neg "
+            "word loops (add_same_len_in_place, sub_same_len_in_place, shl/shr_in_place) appear at their value (+, -, *2^k, /2^k with carry/borrow as comparison) — they are C01/C09 kernels",
+            "the `s >= umax::BITS` arm of udouble::shl_u32 and the `self.hi >= rhs` arm of Rem<u128> for udouble are modelled and covered by the theorems "
+            "(udoubleRem_spec) but unreachable from invm (quo*t < m*2^128), so Tie B never exercises them",
+            "the ptr::eq ring identity is modelled by an instance id (two instances with equal modulus are different rings): a modelling convention, not derivable from source text"]
 RULE = ("moduli from {1, 2^k, odd/even single word, double word with/without normalisation shift, 3..70 words with aligned/unaligned "
         "top word, all-ones / 100..0 / low-words-zero patterns} x operands of any sign and size (reduced, multiples of m, m+-1, "
         "size-class boundaries, up to 140 words) x exponents 0..3 words incl. long zero runs, plus 4..17-word exponents (window lengths 5 and 6) x ops {reduce, + - * / neg dbl sqr pow inv eq, "
@@ -410,31 +538,43 @@ RULE = ("moduli from {1, 2^k, odd/even single word, double word with/without nor
         "negation of residues whose low words are zero; "
         "(moduli of exactly 2..16 words with 0..63 leading zero bits x operands of exactly n/2, n/2+-1 words, all-ones / 2^k-small / "
         "around sqrt(m), through sqr, mul (equal and different operands), pow with small exponents); non-invertible elements by construction (multiples of a "
-        "factor of m); sums/doubles that hit exactly m. The model driver annotates every case with the branch of the mirrored code it takes (reduce: ring kind x "
+        "factor of m); sums/doubles that hit exactly m; "
+        "round 5: invm_prim_cases — single- and double-word moduli of EVERY bit length 2..128 (random, 2^k-1, 2^(k-1)+1, minimal top half with all-ones low half, "
+        "zero low half, 2^k-small) x operands m-1, m-2, (m+-1)/2, (m+-1)/3, 2, 3, m/phi, random, through inv / div / Reducer::inv (measured on the quick tier with a "
+        "Python replica of u128::mulm: 3068 widening_mul + div_rem_2by1 calls, normalising shift 0 and 1..63, first/second digit with 0/1/2 correction steps, "
+        "estimate >= B, rhat >= B break all hit); prim_boundary_cases — reduce of 0, +-1, +-(2^t + {-1,0,1}) for t in 7,8,15,16,31,32,63,64,127,128 (MIN/MAX of every "
+        "primitive type, all primitive call forms that fit) against moduli B^e, B^e+-1 (B = 2^64, 2^32, e = 1..4) and random moduli of every kind, operands m^2+-1, k*m+-1, B^e+-1. "
+        "The model driver annotates every case with the branch of the mirrored code it takes (reduce: ring kind x "
         "operand size class x shift x sign; mul/sqr: division / conditional subtraction / none; inv: raw_len arm x gcd class; pow: window length / exponent words; "
         "add/sub: carry / borrow) — histogram under coverage.annotations in the evidence file. Non-trivial := modulus above one word; distinct := distinct (op,args) lines.")
 EXPLANATION = ("Lean theorems (all W, all moduli, all integers): reduce yields a Valid pre-shifted residue equal to a mod m; + - * neg dbl "
                "sqr preserve Valid and commute with residue; pow = a^e mod m for every e in every ring (square-and-multiply over words; windowed loop for multi-word rings); inv = Some x iff gcd(a,m)=1 "
                "and then a*x = 1; division; different rings panic. The driver executes the mirrored word-level kernels (rem_word/rem_dword/rem_large, "
                "fast_rem_by_normalized_(d)word, PreMulInv*::mul/sqr, inv_large through C12's extended-gcd kernels), each proved equal to the definition the "
-               "homomorphism theorems are about; inv_large's range claim |b| < modulus is a theorem.")
-ASSUMPTIONS = ["dashu's multi-word div_rem_in_place satisfies its floor-division contract (C02)",
-               "mul::multiply/sqr::sqr are exact (C01)",
+               "homomorphism theorems are about; inv_large's range claim |b| < modulus is a theorem. Round 5: multi-word reduce / * / sqr run on word buffers through C02's "
+               "mirrored div_rem_in_place (exactness by import of C02's theorem), and inv of single-/double-word rings runs num-modular's invm with machine arithmetic "
+               "(u128 through udouble::widening_mul and div_rem_2by1), proved overflow-free and equal to the Nat-level invm.")
+ASSUMPTIONS = ["word size W >= 4 for the multi-word multiplication / division links (hypothesis of C01's Toom-3 carry bounds, inherited by C02's Burnikel-Ziegler theorem)",
                "usize has 64 bits in choose_pow_window_len's loop guard (WORD_BITS.min(usize::BIT_SIZE))"]
 LEVEL_TEXT = ("Machine-checked Lean 4 theorems over an executable model that mirrors the pre-shifted residue representation of "
               "ConstDivisor/Reduced (single, double and multi-word rings): for every word size, modulus m >= 1 and all integers, "
               "reduce/+/-/*/neg/dbl/sqr/pow (incl. the windowed multi-word loop)/inv/div are the homomorphic image of integer arithmetic with residues in [0,m), inverse "
               "exists iff coprime, mixing rings panics. The word-level kernels of reduce (two-step rem_dword, fast_rem_by_normalized_word/_dword), of the single- and "
               "double-word products and inv_large (C12's mirrored gcd_ext kernels, range claim |b| < modulus proved) are mirrored, executed and proved equal to the "
-              "arithmetic definitions; decision logic of mul/pow/div is regenerated from source and proved equal to the model's. The model is tied to /repo on every "
+              "arithmetic definitions; the multi-word reductions (rem_large, mul_normalized) run C01's mirrored multiply/sqr and C02's mirrored div_rem_in_place on word buffers with exactness imported from C01's/C02's theorems; "
+              "num-modular's invm is mirrored with machine arithmetic (checked/wrapping u64/u128, udouble) and proved overflow-free and exact; "
+              "decision logic of mul/pow/div is regenerated from source and proved equal to the model's. The model is tied to /repo on every "
               "run by differential execution against ConstDivisor::reduce, all Reduced operator call forms and the num_modular::Reducer impl.")
 LEVEL_NOTE = ("Trusted: Lean kernel; axioms propext/Classical.choice/Quot.sound; correspondence harness + generators (sampling) for the tie "
-              "model<->code; dashu's multi-word multiply/divide kernels at their exact contracts (% and *, C01/C02); the regeneration script vlib/extract.py "
+              "model<->code; the regeneration script vlib/extract.py "
               "for the Tie-A definitions.")
 TECHNIQUE = "Lean 4 refinement proofs (value-level model of the pre-shifted residue representation, word-level mirrors of the division/gcd kernels) + regeneration of decision logic from source + differential correspondence model vs real code"
 THEOREMS = ["Dashu.Props.C13." + t for t in ["new_spec", "reduce_spec", "ops_closed", "hom_add", "hom_sub", "hom_mul", "hom_neg", "hom_dbl",
             "hom_sqr", "hom_pow", "inv_spec", "div_spec", "different_rings",
             "different_instances_same_modulus", "single_word_division_contracts", "double_word_division_contracts", "reducer_ops", "one_asIs_counterexample", "reducer_add_asIs_counterexample",
             "fast_rem_by_normalized_word", "fast_rem_by_normalized_dword", "eq_spec", "reduce_kernels", "mul_sqr_kernels", "pow_kernels", "inv_large_range", "inv_large_mirror", "inv_div_kernels",
-            "mul_normalized_guard_gen", "choose_pow_window_len_gen", "inv_large_dispatch_gen", "inv_large_gcd_is_one_gen"]]
+            "mul_normalized_guard_gen", "choose_pow_window_len_gen", "inv_large_dispatch_gen", "inv_large_gcd_is_one_gen"]] + [
+            "Dashu.Props.C13Link." + t for t in ["rem_large_exact", "large_divisor_fields", "reduce_kernels_all", "mul_sqr_kernels_all",
+            "widening_mul_exact", "udouble_div_rem_2by1_exact", "prim_mulm_exact", "invm_prim_exact", "inv_div_kernels_all",
+            "buffer_logic_gen", "rem_large_gen", "mul_normalized_gen", "product_low_gen", "pow_kernels_all"]]
 READY = True
